@@ -8,7 +8,12 @@
 (* idf_input_string, idf_input_vector) threaded with the stream's fail     *)
 (* bit, the input() method of every record class, and remap_indices.       *)
 (* A string is a sequence of byte values 1..255; a file is a sequence of   *)
-(* byte values.  Module IdbFile turns the reader into the step machine of  *)
+(* byte values.  LENGTH CLASSES: a stream element 1000 + n stands for a    *)
+(* RUN of n bytes 'x' (n up to 100 000), so that strings of 255, 256,      *)
+(* 65 535, 65 536 and 100 000 bytes stay one element long for TLC; the     *)
+(* writer counts their real length (BLen), the reader takes whole          *)
+(* elements that add up to the stored length, the renderer expands them.   *)
+(*  Module IdbFile turns the reader into the step machine of  *)
 (* load_latest/read/read_new; module IdbQuery puts the query interface on  *)
 (* top of the record shapes.                                               *)
 (*                                                                         *)
@@ -54,8 +59,15 @@ Dec(n) == IF n < 10 THEN <<48 + n>> ELSE Append(Dec(n \div 10), 48 + (n % 10))
 WInt(n) == IF n < 0 THEN <<45>> \o Dec(0 - n) ELSE Dec(n)
 WIntSp(n) == Append(WInt(n), SP)
 
+\* real length of a string / stream element (a run token 1000 + n is n bytes long)
+RunBase == 1000
+ElemLen(e) == IF e >= RunBase THEN e - RunBase ELSE 1
+RECURSIVE RunLen(_, _)
+RunLen(s, js) == IF js = {} THEN 0 ELSE LET j == CHOOSE j \in js : TRUE IN ElemLen(s[j]) - 1 + RunLen(s, js \ {j})
+BLen(s) == Len(s) + RunLen(s, {j \in 1..Len(s) : s[j] >= RunBase})    \* (recursion only over the run tokens)
+
 \* idf_output_string(out, str, whitespace)
-WStrW(s, ws) == WInt(Len(s)) \o <<ws>> \o (IF s = <<>> THEN <<>> ELSE Append(s, ws))
+WStrW(s, ws) == WInt(BLen(s)) \o <<ws>> \o (IF s = <<>> THEN <<>> ELSE Append(s, ws))
 WStr(s) == WStrW(s, SP)
 
 \* idf_output_vector: size, then every element followed by a blank
@@ -144,11 +156,19 @@ RGet(s, st) ==
   IF st.ok /\ st.p <= Len(s) THEN [st |-> [p |-> st.p + 1, ok |-> TRUE], v |-> s[st.p]]
   ELSE [st |-> Failed(st.p), v |-> 255]
 
-\* the `length` bytes after the separator; running off the end sets failbit
+\* the `length` bytes after the separator; running off the end sets failbit.
+\* Take: how many stream elements from position p make up exactly n bytes (-1: they do not)
+RECURSIVE Take(_, _, _)
+Take(s, p, n) ==
+  IF n = 0 THEN 0
+  ELSE IF p > Len(s) \/ ElemLen(s[p]) > n THEN 0 - 1
+  ELSE LET r == Take(s, p + 1, n - ElemLen(s[p])) IN IF r = 0 - 1 THEN r ELSE r + 1
 RBytes(s, st, n) ==
   IF n <= 0 THEN [st |-> st, v |-> <<>>]
-  ELSE IF st.ok /\ st.p + n - 1 <= Len(s)
+  ELSE IF st.ok /\ st.p + n - 1 <= Len(s) /\ \A i \in st.p..(st.p + n - 1) : s[i] < RunBase      \* plain bytes
     THEN [st |-> [p |-> st.p + n, ok |-> TRUE], v |-> SubSeq(s, st.p, st.p + n - 1)]
+  ELSE LET k == IF st.ok THEN Take(s, st.p, n) ELSE 0 - 1 IN
+    IF k # 0 - 1 THEN [st |-> [p |-> st.p + k, ok |-> TRUE], v |-> SubSeq(s, st.p, st.p + k - 1)]
     ELSE [st |-> Failed(Len(s) + 1), v |-> <<>>]
 
 \* idf_input_string(istream&, std::string&)
@@ -455,7 +475,13 @@ Str(i) ==
     [] i = 8 -> <<195, 169>>               \* "é" (UTF-8)
     [] i = 9 -> <<49, 50, 32, 51, 10>>     \* "12 3\n"  looks like what follows a string
     [] i = 10 -> <<13, 10, 9, 45, 49>>     \* "\r\n\t-1"
-NStr == 10
+    \* length classes (runs of 'x'): 255, 256, 65535, 65536, 100000 bytes
+    [] i = 11 -> <<RunBase + 255>>
+    [] i = 12 -> <<RunBase + 256>>
+    [] i = 13 -> <<RunBase + 65535>>
+    [] i = 14 -> <<34, RunBase + 65535>>   \* a quote and 65535 more: 65536 bytes
+    [] i = 15 -> <<RunBase + 100000>>
+NStr == 10                                 \* slot B cycles through the content strings 1..10
 
 \* index numbers: the j-th record gets 3j+5 (8, 11, 14, ...): gaps, two digits, no kind order
 IdxOf(j) == 3 * j + 5
